@@ -36,7 +36,7 @@ func classesOf(c Case, res simResult) (cl []string, cycle, tie, fault bool) {
 	}
 	switch {
 	case c.Sched.MaxDelay == 0:
-		cl = append(cl, "delay=0")
+		cl = append(cl, "delay=5ms-constant")
 	case c.Sched.MaxDelay <= 20:
 		cl = append(cl, "delay<=20ms")
 	default:
